@@ -74,7 +74,7 @@ def gen_pars(cinfo, rng, dim, zero_part=None):
     pars["scale"] = rng.choice([1.0, rng.uniform(0.1, 3)])
     pars["background"] = rng.choice([0.0, rng.uniform(0.001, 1)])
     # dispersity on up to three parameters anywhere in the expression
-    pdn = list(cinfo.parameters.pd_2d if dim == "2d" else cinfo.parameters.pd_1d)
+    pdn = c01.dispersible(cinfo.parameters, dim)
     byname = {p.name: p for p in cinfo.parameters.call_parameters}
     for name in rng.sample(pdn, min(len(pdn), rng.choice([0, 1, 2, 3]))):
         p = byname[name]
